@@ -35,6 +35,7 @@ type c19Entry struct {
 type c19Payload struct {
 	Entries []c19Entry `json:"entries"`
 	Note    string     `json:"note"`
+	Entry   string     `json:"entry,omitempty"`
 }
 
 var c19Types = map[string][2]string{
@@ -192,11 +193,12 @@ func c19Judge(c *fw.Ctx, es []c19Entry, family string) {
 		names = append(names, f.Name)
 	}
 	want := c19Expect(names, es)
-	p := c19Payload{Entries: es, Note: family}
-	key := fw.InputKey(data, 0, "Detect")
+	entry := pickEntry(c)
+	p := c19Payload{Entries: es, Note: family, Entry: entry}
+	key := fw.InputKey(data, 0, entry)
 	c.Trace(func() (string, any) { return key, p })
 	var ch lib.Chain
-	if !c.Guard(key, func() any { return p }, func() { ch = lib.ChainOf(lib.Detect(data, 0)) }) {
+	if !c.Guard(key, func() any { return p }, func() { ch = lib.ChainOf(detectEntry(data, 0, entry)) }) {
 		return
 	}
 	c.Eval(1)
@@ -537,6 +539,7 @@ func init() {
 				fmt.Println("bad payload:", err)
 				return
 			}
+			forcedEntry = p.Entry
 			if p.Note == "buffer-reuse" {
 				c19Special(c)
 				return
